@@ -593,7 +593,10 @@ class Tally(StatisticsInterface):
             since the initialization, or NaN when not enough observations 
             were registered.
         """
-        return math.sqrt(self.variance(biased))
+        variance = self.variance(biased)
+        if variance >= 0.0:
+            return math.sqrt(variance)
+        return math.nan
     
     def skewness(self, biased: bool=True) -> float:
         r"""
